@@ -201,7 +201,7 @@ static bool run_op(const std::vector<std::string>& w, Buf& c, Buf& t, long& dC, 
   dC = dT = 0;
   long a0, a1, a2;
 #define CSIDE(stmt) do { a0 = heap_now(); stmt; a1 = heap_now(); dC = a1 - a0; } while (0)
-#define TSIDE(stmt) do { lsan_off(); a1 = heap_now(); stmt; a2 = heap_now(); lsan_on(); dT = a2 - a1; } while (0)
+#define TSIDE(stmt) do { fputs("c\n", stdout); fflush(stdout); lsan_off(); a1 = heap_now(); stmt; a2 = heap_now(); lsan_on(); dT = a2 - a1; } while (0)
   if (op == "nddestroy") {
     int s = atoi(w[1].c_str());
     CSIDE(ndsparse_destroy(ND_C[s]); ND_C[s] = nullptr);
@@ -241,7 +241,7 @@ static bool run_op(const std::vector<std::string>& w, Buf& c, Buf& t, long& dC, 
     unlink(FX.outC.c_str()); unlink(FX.outT.c_str());
     int rc; CSIDE(rc = writesplinefitstable(p, ch)); c.add("%s", rc_status(rc));
     if (rc == 0) c.add(" fh=%016llx", (unsigned long long)file_hash(pc));
-    if (!p || !ch) t.add("inv");
+    if (!p || !ch || !W[h]) t.add("inv");
     else { bool thrown = false; TSIDE(try { W[h]->write_fits(pt); } catch (...) { thrown = true; }); t.add(thrown ? "throw" : "ok"); if (!thrown) t.add(" fh=%016llx", (unsigned long long)file_hash(pt)); }
   } else if (op == "writemem") {
     struct splinetable_buffer b; b.data = nullptr; b.size = 0; char dummy;
@@ -250,20 +250,20 @@ static bool run_op(const std::vector<std::string>& w, Buf& c, Buf& t, long& dC, 
     int rc; uint64_t hh = 0; size_t sz = 0;
     CSIDE(rc = writesplinefitstable_mem(bp, ch); if (rc == 0) { hh = fnv(b.data, b.size); sz = b.size; free(b.data); });
     c.add("%s", rc_status(rc)); if (rc == 0) c.add(" mh=%016llx n=%zu", (unsigned long long)hh, sz);
-    if (!bp || nullarg == "occupied" || !ch) t.add("inv");
+    if (!bp || nullarg == "occupied" || !ch || !W[h]) t.add("inv");
     else { bool thrown = false; TSIDE(try { auto r = W[h]->write_fits_mem(); hh = fnv(r.first, r.second); sz = r.second; free(r.first); } catch (...) { thrown = true; });
       t.add(thrown ? "throw" : "ok"); if (!thrown) t.add(" mh=%016llx n=%zu", (unsigned long long)hh, sz); }
   } else if (op == "getkey") {
     const char* key = nullarg == "key" ? nullptr : w[2].c_str();
     const char* v; CSIDE(v = splinetable_get_key(ch, key));
     if (v) c.add("ptr s=%s", v); else c.add("null");
-    if (!key || !ch) t.add("inv"); else { const char* tv; TSIDE(tv = W[h]->get_aux_value(key)); if (tv) t.add("ok s=%s", tv); else t.add("fail"); }
+    if (!key || !ch || !W[h]) t.add("inv"); else { const char* tv; TSIDE(tv = W[h]->get_aux_value(key)); if (tv) t.add("ok s=%s", tv); else t.add("fail"); }
   } else if (op == "readkey") {
     bool isint = w[2] == "i"; const char* key = nullarg == "key" ? nullptr : w[3].c_str();
     int iv = -777; double dv = -777.0; void* res = nullarg == "result" ? nullptr : (isint ? (void*)&iv : (void*)&dv);
     int rc; CSIDE(rc = splinetable_read_key(ch, isint ? SPLINETABLE_INT : SPLINETABLE_DOUBLE, key, res));
     c.add("%s", rc_status(rc)); if (rc == 0) { if (isint) c.add(" v=%d", iv); else c.add(" v=%llu", (unsigned long long)cbits(dv)); }
-    if (!key || !res || !ch) t.add("inv");
+    if (!key || !res || !ch || !W[h]) t.add("inv");
     else { int tiv = -777; double tdv = -777.0; int st = 0;
       TSIDE(try { bool ok = isint ? W[h]->read_key(key, tiv) : W[h]->read_key(key, tdv); st = ok ? 0 : 1; } catch (...) { st = 2; });
       t.add(st == 0 ? "ok" : st == 1 ? "fail" : "throw"); if (st == 0) { if (isint) t.add(" v=%d", tiv); else t.add(" v=%llu", (unsigned long long)cbits(tdv)); } }
@@ -272,7 +272,7 @@ static bool run_op(const std::vector<std::string>& w, Buf& c, Buf& t, long& dC, 
     int iv = atoi(w[4].c_str()); double dv = iv * 0.375;
     const void* val = nullarg == "value" ? nullptr : (isint ? (const void*)&iv : (const void*)&dv);
     int rc; CSIDE(rc = splinetable_write_key(ch, isint ? SPLINETABLE_INT : SPLINETABLE_DOUBLE, key, val)); c.add("%s", rc_status(rc));
-    if (!key || !val || !ch) t.add("inv");
+    if (!key || !val || !ch || !W[h]) t.add("inv");
     else { int st = 0; TSIDE(try { if (isint) W[h]->write_key(key, iv); else W[h]->write_key(key, dv); } catch (...) { st = 2; }); t.add(st == 0 ? "ok" : "throw"); }
   } else if (op == "get") {
     const std::string& which = w[2]; Rng r(strtoull(w[3].c_str(), nullptr, 10));
@@ -281,7 +281,7 @@ static bool run_op(const std::vector<std::string>& w, Buf& c, Buf& t, long& dC, 
     else if (nd == 0) return false;
     else if (which == "order") { uint32_t v; CSIDE(v = splinetable_order(ch, d)); c.add("val v=%u", v); TSIDE(v = tw->get_order(d)); t.add("ok v=%u", v); }
     else if (which == "nknots") { uint64_t v; CSIDE(v = splinetable_nknots(ch, d)); c.add("val v=%llu", (unsigned long long)v); TSIDE(v = tw->get_nknots(d)); t.add("ok v=%llu", (unsigned long long)v); }
-    else if (which == "knots") { const double* v; CSIDE(v = splinetable_knots(ch, d)); c.add("val v=%016llx", (unsigned long long)fnv_d(v, cobj->nknots[d], 7)); TSIDE(v = tw->get_knots(d)); t.add("ok v=%016llx", (unsigned long long)fnv_d(v, tw->nknots[d], 7)); }
+    else if (which == "knots") { const double* v; CSIDE(v = splinetable_knots(ch, d)); c.add("ptr v=%016llx", (unsigned long long)fnv_d(v, cobj->nknots[d], 7)); TSIDE(v = tw->get_knots(d)); t.add("ok v=%016llx", (unsigned long long)fnv_d(v, tw->nknots[d], 7)); }
     else if (which == "knot") { uint64_t k = r.below(tw->nknots[d]); double v; CSIDE(v = splinetable_knot(ch, d, k)); c.add("val v=%llu", (unsigned long long)cbits(v)); TSIDE(v = tw->get_knot(d, k)); t.add("ok v=%llu", (unsigned long long)cbits(v)); }
     else if (which == "lower") { double v; CSIDE(v = splinetable_lower_extent(ch, d)); c.add("val v=%llu", (unsigned long long)cbits(v)); TSIDE(v = tw->lower_extent(d)); t.add("ok v=%llu", (unsigned long long)cbits(v)); }
     else if (which == "upper") { double v; CSIDE(v = splinetable_upper_extent(ch, d)); c.add("val v=%llu", (unsigned long long)cbits(v)); TSIDE(v = tw->upper_extent(d)); t.add("ok v=%llu", (unsigned long long)cbits(v)); }
@@ -289,7 +289,7 @@ static bool run_op(const std::vector<std::string>& w, Buf& c, Buf& t, long& dC, 
     else if (which == "ncoeffs") { uint64_t v; CSIDE(v = splinetable_ncoeffs(ch, d)); c.add("val v=%llu", (unsigned long long)v); TSIDE(v = tw->get_ncoeffs(d)); t.add("ok v=%llu", (unsigned long long)v); }
     else if (which == "total") { uint64_t v; CSIDE(v = splinetable_total_ncoeffs(ch)); c.add("val v=%llu", (unsigned long long)v); TSIDE(v = tw->get_ncoeffs()); t.add("ok v=%llu", (unsigned long long)v); }
     else if (which == "stride") { uint64_t v; CSIDE(v = splinetable_stride(ch, d)); c.add("val v=%llu", (unsigned long long)v); TSIDE(v = tw->get_stride(d)); t.add("ok v=%llu", (unsigned long long)v); }
-    else if (which == "coeffs") { const float* v; CSIDE(v = splinetable_coefficients(ch)); c.add("val v=%016llx", (unsigned long long)fnv_f(v, cobj->naxes[0] * cobj->strides[0], 7)); TSIDE(v = tw->get_coefficients()); t.add("ok v=%016llx", (unsigned long long)fnv_f(v, tw->naxes[0] * tw->strides[0], 7)); }
+    else if (which == "coeffs") { const float* v; CSIDE(v = splinetable_coefficients(ch)); c.add("ptr v=%016llx", (unsigned long long)fnv_f(v, cobj->naxes[0] * cobj->strides[0], 7)); TSIDE(v = tw->get_coefficients()); t.add("ok v=%016llx", (unsigned long long)fnv_f(v, tw->naxes[0] * tw->strides[0], 7)); }
     else return false;
   } else if (op == "search" || op == "eval" || op == "grad" || op == "deriv") {
     const Table* tw = W[h]; if (!tw || tw->ndim == 0) return false;
@@ -327,12 +327,17 @@ static bool run_op(const std::vector<std::string>& w, Buf& c, Buf& t, long& dC, 
     const struct ndsparse* dp = nullarg == "data" ? nullptr : &f.data;
     int rc; CSIDE(rc = splinetable_glamfit(ch, dp, f.w.data(), f.cptr.data(), f.ord.data(), f.kptr.data(), f.nk.data(), f.smooth.data(), f.pord.data(), f.monodim, false));
     c.add("%s", rc_status(rc));
-    if (!dp || !ch) t.add("inv");
+    if (!dp || !ch || !W[h]) t.add("inv");
     else { bool thrown = false; TSIDE(try { W[h]->fit(f.data, f.w, f.coords, f.ord, f.knots, f.smooth, f.pord, f.monodim, false); } catch (...) { thrown = true; }); t.add(thrown ? "throw" : "ok"); }
     ndsparse_free(&f.data);
   } else if (op == "grideval") {
-    const Table* tw = W[h]; if (!tw || tw->ndim == 0) return false;
+    const Table* tw = W[h]; if (tw && tw->ndim == 0) return false;
     int s = atoi(w[2].c_str()); Rng r(strtoull(w[3].c_str(), nullptr, 10));
+    if (!tw || !ch) {   // no object behind the handle (or no handle): the guard must answer, *result must be NULL
+      double dummy = 0; const double* cp1[1] = {&dummy}; uint32_t nc1[1] = {1}; int rc; struct ndsparse* res = (struct ndsparse*)0x1;
+      CSIDE(rc = splinetable_grideval(ch, cp1, nc1, &res)); c.add("%s%s", rc_status(rc), res ? " res=stale" : " res=null"); t.add("inv res=null");
+      digest((Table*)H[h].data, c); digest(W[h], t); return true;
+    }
     uint32_t nd = tw->ndim;
     std::vector<std::vector<double>> co(nd); std::vector<const double*> cp(nd); std::vector<uint32_t> nc(nd);
     for (uint32_t i = 0; i < nd; i++) {
@@ -345,8 +350,7 @@ static bool run_op(const std::vector<std::string>& w, Buf& c, Buf& t, long& dC, 
     CSIDE(rc = splinetable_grideval(ch, cp.data(), nc.data(), &res));
     c.add("%s", rc_status(rc));
     if (rc == 0 && res) { c.add(" nd=%016llx", (unsigned long long)nd_hash(res)); ND_C[s] = res; } else c.add(res ? " res=stale" : " res=null");
-    if (!ch) t.add("inv");
-    else { bool thrown = false; TSIDE(try { ND_T[s] = tw->grideval(co).release(); } catch (...) { thrown = true; ND_T[s] = nullptr; });
+    { bool thrown = false; TSIDE(try { ND_T[s] = tw->grideval(co).release(); } catch (...) { thrown = true; ND_T[s] = nullptr; });
       t.add(thrown ? "throw" : "ok"); if (!thrown) t.add(" nd=%016llx", (unsigned long long)nd_hash(ND_T[s])); else t.add(" res=null"); }
   } else if (op == "permute") {
     const Table* tw = W[h]; if (!tw || tw->ndim == 0) return false;
@@ -359,16 +363,18 @@ static bool run_op(const std::vector<std::string>& w, Buf& c, Buf& t, long& dC, 
     int rc; CSIDE(rc = splinetable_permute(ch, pc.data())); c.add("%s", rc_status(rc));
     bool thrown = false; TSIDE(try { W[h]->permuteDimensions(p); } catch (...) { thrown = true; }); t.add(thrown ? "throw" : "ok");
   } else if (op == "convolve") {
-    const Table* tw = W[h]; if (!tw || tw->ndim == 0) return false;
+    const Table* tw = W[h]; if (tw && tw->ndim == 0) return false;
+    if (!tw || !ch || nullarg == "knots") {
+      double kk[2] = {-0.125, 0.125}; int rc; CSIDE(rc = splinetable_convolve(ch, 0, nullarg == "knots" ? nullptr : kk, 2)); c.add("%s", rc_status(rc)); t.add("inv");
+      digest((Table*)H[h].data, c); digest(W[h], t); return true;
+    }
     Rng r(strtoull(w[3].c_str(), nullptr, 10)); uint32_t nd = tw->ndim; int d = (int)r.below(nd);
     std::vector<double> k = r.coin() ? std::vector<double>{-0.125, 0.125} : std::vector<double>{-0.25, 0.0, 0.25};
     size_t nk = k.size();
-    if (w[2] == "zero") {
-      // n_knots = 0: the new coefficient count wraps around and `new float[count]` throws std::bad_array_new_length
-      // before the table is touched.  Only used when that overflow is certain.
-      uint64_t n = 1; for (uint32_t i = 0; i < nd; i++) n *= (i == (uint32_t)d) ? (uint64_t)0 - (tw->order[d] - 1) - 1 : tw->naxes[i];
-      if (tw->order[d] < 1 || n <= (~(uint64_t)0) / 4) return false;
-      nk = 0;
+    if (w[2] == "huge") {
+      // an absurd n_knots (invalid argument): the size of the first scratch array, nknots*n_knots + 2*convorder, exceeds
+      // what `new double[]` can express, so convolve throws std::bad_array_new_length before it touches the table
+      nk = (~(size_t)0) / (size_t)tw->nknots[d] / 2;
     } else if (tw->order[d] + nk - 1 > 6) return false;
     int rc; CSIDE(rc = splinetable_convolve(ch, d, k.data(), nk)); c.add("%s", rc_status(rc));
     bool thrown = false; TSIDE(try { W[h]->convolve(d, k.data(), nk); } catch (...) { thrown = true; }); t.add(thrown ? "throw" : "ok");
@@ -419,7 +425,8 @@ int main(int argc, char** argv) {
 #if HAVE_SAN
       leak = __lsan_do_recoverable_leak_check();
 #endif
-      printf("E %s sumC=%ld sumT=%ld lsan=%d\n", seq.c_str(), sumC, sumT, leak); fflush(stdout); continue;
+      printf("E %s sumC=%ld sumT=%ld lsan=%d\n", seq.c_str(), sumC, sumT, leak); fflush(stdout);
+      fprintf(stderr, "@E %s\n", seq.c_str()); fflush(stderr); continue;
     }
     Buf c, t; long dC, dT;
     printf("B %s %d %s\n", seq.c_str(), idx, w[0].c_str()); fflush(stdout);
